@@ -227,6 +227,12 @@ def obligations(tier):
                     obs.append(ob_def(dr, dc, S, "array", "array" if len(S) > 1 else "int"))
                     if dr < dc:
                         obs.append(ob_algebra(dr, dc, S))
+    # many subsystems (9..17), all but two or three of dimension 1 (orderings of unordered containers, digit arithmetic)
+    many = [([1, 2, 1, 1, 1, 1, 1, 1, 2], [1]), ([1, 2, 1, 1, 1, 1, 1, 1, 3], [8, 0, 3]), ([2, 1, 1, 1, 1, 1, 1, 1, 3, 1], [0, 9]),
+            ([1, 3, 1, 1, 1, 1, 1, 1, 2, 1], [8]), ([1, 1, 2, 1, 1, 1, 1, 1, 1, 1, 1, 1, 1, 1, 1, 1, 3], [16, 5])]
+    for d, S in many:
+        obs.append(ob_def(tuple(d), tuple(d), S, "flat", "list"))
+        obs.append(ob_algebra(tuple(d), tuple(d), S))
     for d in [2, 3] + ([4, 5] if T else [4]):
         obs.append(ob_default(d))
     for N, d in [(4, 2), (6, 2), (6, 3), (8, 2), (8, 4), (9, 3), (12, 3), (12, 4), (6, 1), (6, 6)] + ([(15, 3), (15, 5), (16, 2), (16, 8)] if T else []):
